@@ -171,6 +171,15 @@ CHECKS = {
         "DESIGN.md 6 C01",
         TRUST,
     ),
+    "C14": (
+        "TLC check of FlowStep.tla: RefStep commutes with every element of the grid symmetry group (permutations x mirrors, "
+        "vorticity as pseudo-scalar/vector) on simulated compact tie-free states; refuted when ties are allowed + emitted states "
+        "stepped by two real simulators (grid and image, non-square/non-cubic) with T(step(s)) compared to step(T(s)) on the "
+        "code's outputs (vorticity, velocity; free stream and forcing transformed)",
+        "Model checking of the operator sequence's equivariance + direct evaluation of the property on pairs of real simulators.",
+        "DESIGN.md 6 C14",
+        TRUST,
+    ),
 }
 
 NOT_YET = "check not built yet in this round (see DESIGN.md 11 for the build order)"
